@@ -85,12 +85,14 @@ pub struct Env {
     pub scratch: PathBuf,
     /// strict = replay mode: known findings are reported as failures too
     pub strict: bool,
+    /// evaluate every case twice (regression replays)
+    pub repeat_all: bool,
     counter: u64,
 }
 
 impl Env {
     pub fn new(tier: Tier, seed: u64, worker: usize, workers: usize, scratch: PathBuf) -> Self {
-        Env { tier, seed, worker, workers, scratch, strict: false, counter: 0 }
+        Env { tier, seed, worker, workers, scratch, strict: false, repeat_all: false, counter: 0 }
     }
     /// A fresh, empty sub-directory of the scratch dir.
     pub fn fresh_dir(&mut self, tag: &str) -> PathBuf {
@@ -142,6 +144,10 @@ pub trait Property {
         false
     }
     /// bound on shrink iterations (expensive cases want fewer)
+    /// one case in `n` is evaluated twice in a row (0: never); see `eval`
+    fn repeat_every() -> u64 {
+        4
+    }
     fn max_shrink_iters() -> u32 {
         4096
     }
@@ -382,6 +388,29 @@ impl Stats {
 /// Evaluate one spec with panic capture. Panics inside the library become
 /// failures with a `panic/...` signature; panics in the harness are errors.
 pub fn eval<P: Property>(spec: &P::Spec, env: &mut Env) -> Result<Outcome, String> {
+    let mut first = eval_once::<P>(spec, env)?;
+    // History: a deterministic quarter of the cases (every case in replay mode) is evaluated a
+    // second time in the same process, straight after the first. The property must hold for the
+    // same input again - state that an earlier call (successful or failed) left behind in the
+    // library must not change the answer.
+    let every = P::repeat_every();
+    if first.failures.is_empty() && every > 0 {
+        let pick = env.strict || env.repeat_all || fnv(&serde_json::to_string(spec).unwrap_or_default()) % every == 0;
+        if pick {
+            let second = eval_once::<P>(spec, env)?;
+            first.classes.push("evaluated-twice".into());
+            first.evals += second.evals.max(1);
+            for mut f in second.failures {
+                f.signature = format!("{}/on-repeat", f.signature);
+                f.observed = format!("on the second evaluation of the same case in the same process: {}", f.observed);
+                first.failures.push(f);
+            }
+        }
+    }
+    Ok(first)
+}
+
+fn eval_once<P: Property>(spec: &P::Spec, env: &mut Env) -> Result<Outcome, String> {
     match guarded(|| P::check(spec, env)) {
         Ok(o) => Ok(o),
         Err(pi) => {
@@ -473,7 +502,9 @@ pub fn run_worker<P: Property>(args: WorkerArgs) {
                 match serde_json::from_value::<P::Spec>(specv) {
                     Ok(spec) => {
                         st.rep.replayed += 1;
+                        env.repeat_all = true;
                         handle(&spec, &format!("replay:{}", f.display()), &mut st, &mut env);
+                        env.repeat_all = false;
                     }
                     Err(e) => st
                         .rep
